@@ -110,12 +110,12 @@ def check_step(d: vecu.Driver, ref: vecu.RefState, b: bytes, off: set[str], step
     else:
         # structural claims
         if reply is None:
-            if "default_response_if_none" in off:
+            if e == "POSITIVE" and suppress_req and may_suppress:
+                pos_sid = sid  # the certain positive reply was suppressed: its state change still happens
+            elif "default_response_if_none" in off:
                 pass  # silence is allowed when nothing decides
             elif not (suppress_req and may_suppress):
                 out.append(("C13/suppress/silence-without-suppress-bit", f"{ctx}: no reply although the request does not ask for suppression"))
-            elif e == "POSITIVE":
-                pos_sid = sid
         else:
             if reply[0] == 0x7F:
                 if len(reply) != 3 or reply[1] != sid:
